@@ -6,9 +6,12 @@
 EXTENDS FreshMC, Json
 VARIABLES imp        \* values drawn while the running interpreter imported SPSDK: <<kind, how, field>> -> id
 ivars == <<arts, old, proc, live, imported, draws, nexp, imp>>
-Table == IOEnv.IMPL_TABLE                                    \* "asbuilt" | "intended"
+Table == IOEnv.IMPL_TABLE                                    \* "asbuilt" | "intended" | "percall"
+\* "percall" is NOT how SPSDK is built: it is the intended table with one row changed - the key info block of a BEE region header drawn once
+\* per CALL of load_from_config instead of once per header.  TLC must find PartsFresh violated on it (the clause is not vacuous).
 When(k, h, f) ==
   IF Table = "intended" THEN (IF f \in Late(k) THEN "export" ELSE "construct")
+  ELSE IF Table = "percall" THEN (IF k = "BEE" /\ h = "config" /\ f \in {"kib_key", "kib_iv"} THEN "call" ELSE IF f \in Late(k) THEN "export" ELSE "construct")
   ELSE CASE k = "SB20" /\ h = "ctor" /\ f \in {"dek", "mac", "nonce"} -> "import"           \* default argument SBV2xAdvancedParams() evaluated once
          [] k = "SB21" /\ h = "ctor" /\ f \in {"dek", "mac", "nonce", "hpad"} -> "import"   \* the same, padding included
          [] k = "MBI" /\ h = "ctor" /\ f = "ctr_iv" -> "import"                              \* class-level NEEDED_MEMBERS value
@@ -25,23 +28,29 @@ IInit == MInit /\ imp = [s \in {} |-> 0]
 IImport == /\ ~imported /\ imported' = TRUE
            /\ imp' = [s \in ImportSlots |-> draws + SlotNo(s)]
            /\ draws' = draws + 100 /\ UNCHANGED <<arts, old, proc, live, nexp>>
+PerCall(k, f) == 20000 + NBuilds * Step + FieldNo(k, f)       \* one value per build: the parts after the first find it again
 Drawn(k, h, ex, f, at) == IF f \in ex THEN UserVal(k, f)
                           ELSE CASE When(k, h, f) = "import" -> imp[<<k, h, f>>]
                                  [] When(k, h, f) = "const" -> Const
+                                 [] When(k, h, f) = "call" -> PerCall(k, f) + (IF Open = 0 THEN Step ELSE 0)
                                  [] OTHER -> at + FieldNo(k, f)
 \* a late field that was drawn at construction: one value per artefact, stable over its exports
 AtConstruction(a, f) == 10000 + a * Step + FieldNo(Art(a).kind, f)
-IConstruct == /\ imported /\ Len(arts) < MaxArts
-              /\ \E m \in UseMenu :
-                   RecordConstruct(m.kind, m.how, ToSet(m.ex),
-                                   [f \in Fields(m.kind) \ Late(m.kind) |-> Drawn(m.kind, m.how, ToSet(m.ex), f, draws)])
+\* every part of a build goes through the constructors of its own objects: what is drawn "at construction" is drawn per part
+\* (PartOk: the structure of builds, not a check of values)
+IConstruct == /\ imported
+              /\ \E m \in UseMenu : \E p \in 1..MaxParts :
+                   /\ (p > 1 \/ Len(arts) < MaxArts) /\ PartOk(m.kind, m.how, ToSet(m.ex), m.opt, p)
+                   /\ RecordConstruct(m.kind, m.how, ToSet(m.ex), m.opt, p,
+                                      [f \in Fields(m.kind) \ Late(m.kind) |->
+                                         IF f \in ToSet(m.ex) THEN UserValOf(m.kind, f, m.opt, p) ELSE Drawn(m.kind, m.how, ToSet(m.ex), f, draws)])
               /\ draws' = draws + Step /\ UNCHANGED <<nexp, imp>>
 \* load_from_config on an existing object runs the same code as on a new one: what is drawn "at construction" is drawn again
-IReconfigure == /\ imported /\ Len(arts) < MaxArts
+IReconfigure == /\ imported /\ Open = 0 /\ Len(arts) < MaxArts
                 /\ \E o \in live : \E m \in ReconfItems(o) :
                      RecordReconfigure(o, ToSet(m.ex), [f \in Fields(m.kind) \ Late(m.kind) |-> Drawn(m.kind, m.how, ToSet(m.ex), f, draws)])
                 /\ draws' = draws + Step /\ UNCHANGED <<nexp, imp>>
-IExport == /\ nexp < MaxExp
+IExport == /\ nexp < MaxExp /\ Open = 0
            /\ \E a \in live :
                 RecordExport(a, [f \in Fields(Art(a).kind) |->
                                    IF f \notin Late(Art(a).kind) THEN Art(a).val[f]
